@@ -1,4 +1,4 @@
-import ShVerif.Proofs.C20Bin
+import ShVerif.Proofs.C20Num
 /-
   C20 helper lemmas: status rules, error characterisation, absence of panics, assignment operators.
 -/
@@ -144,5 +144,68 @@ theorem no_panic_both (e : Expr) :
 theorem no_panic_core (env : Env) (e : Expr) (hwf : WF e = true) : (evalArith env e).1 ≠ .panic :=
   (no_panic_both e).1 env hwf
 
+
+/-! ### assignment operators -/
+
+theorem chase_not_name (get : Bytes → Bytes) (k : Nat) (s : Bytes) (h : validName s = false) :
+    chase get k s = s := by
+  cases k <;> simp [chase, h]
+
+theorem atoi_nil : atoi [] = 0 := by decide
+
+theorem evalArith_word (env : Env) (w : Bytes) :
+    evalArith env (.word w) = (.ok (atoi (chase env.get 99 w)), env) := by
+  rw [evalArith]; rfl
+
+theorem chase_succ (get : Bytes → Bytes) (k : Nat) (s : Bytes) :
+    chase get (k + 1) s =
+      if validName s then (if get s = [] then s else chase get k (get s)) else s := by
+  rw [chase]
+
+/-- A name whose value is not itself a name: the word rule reads it with `atoi`, like `op=`. -/
+theorem evalArith_word_lval (env : Env) (x : Bytes) (hx : validName x = true)
+    (hv : validName (env.get x) = false) :
+    evalArith env (.word x) = (.ok (atoi (env.get x)), env) := by
+  rw [evalArith_word, show (99 : Nat) = 98 + 1 from rfl, chase_succ, if_pos hx]
+  by_cases he : env.get x = []
+  · rw [if_pos he, he, atoi_name hx, atoi_nil]
+  · rw [if_neg he, chase_not_name _ _ _ hv]
+
+theorem assignOp_plain {op aop : BinOp} (h : assignOp op = some aop) :
+    isAssign op = true ∧ isAssign aop = false ∧ aop ≠ .ternQuest ∧ ¬ (aop = .andL ∨ aop = .orL) := by
+  cases op <;> simp [assignOp] at h <;> subst h <;> decide
+
+theorem assign_ops_core (env : Env) (op aop : BinOp) (x : Bytes) (e : Expr)
+    (hop : assignOp op = some aop) (hx : validName x = true)
+    (hv : validName (env.get x) = false) :
+    evalArith env (.binary op (.word x) e) =
+      evalArith env (.binary .assgn (.word x) (.binary aop (.word x) e)) := by
+  obtain ⟨h1, h2, h3, h4⟩ := assignOp_plain hop
+  have hL : evalArith env (.binary op (.word x) e) =
+      andThen (evalArith env e) fun arg env' =>
+        match binArit aop (atoi (env.get x)) arg with
+        | .ok v => setVar env' x v
+        | r => (r, env') := by
+    rw [evalArith]; simp only [h1, if_true, wordOf, hop]; rfl
+  have hInner : evalArith env (.binary aop (.word x) e) =
+      andThen (evalArith env e) fun right env'' => (binArit aop (atoi (env.get x)) right, env'') := by
+    rw [evalArith]
+    simp only [h2, Bool.false_eq_true, if_false, h3, h4, evalArith_word_lval env x hx hv, andThen_ok]
+  have hR : evalArith env (.binary .assgn (.word x) (.binary aop (.word x) e)) =
+      andThen (evalArith env (.binary aop (.word x) e)) fun arg env' => setVar env' x arg := by
+    rw [evalArith]
+    simp [isAssign, wordOf, assignOp]
+  rw [hL, hR, hInner]
+  cases hy : evalArith env e with
+  | mk r env1 =>
+    cases r with
+    | ok arg =>
+      simp only [andThen_ok]
+      cases hb : binArit aop (atoi (env.get x)) arg with
+      | ok v => simp
+      | err er => simp
+      | panic => simp
+    | err er => simp
+    | panic => simp
 
 end ShVerif.C20
